@@ -25,7 +25,8 @@ from . import eng_sched as es
 PROPS = ["C13"]
 NONE = {"k": "none"}
 POOL = ["", "alpha", "b;c", 'say "hi"', "line1\nline2", "crlf\r\nx", "ünï©ødé ✓ 日本", " lead and trail ",
-        "$x {{y}} </script>", "5", "None", "True", "';--", "a,b\tc", "quote\"semi;nl\n"]
+        "$x {{y}} </script>", "5", "None", "True", "';--", "a,b\tc", "quote\"semi;nl\n",
+        "C:\\tools\\bin", "ends with \\", "\\\"q;\\n"]
 UNKNOWN_TEXT = 999
 BASE = _dt.date(1969, 1, 1)
 DATES = [_dt.date(1969, 1, 1), _dt.date(1999, 12, 31), _dt.date(2000, 1, 1), _dt.date(2068, 12, 31),
